@@ -416,38 +416,89 @@ Proof.
             negb ((ust b <=? ust a) && (ust a <=? uen a) && (uen a <=? uen b))) eqn:E; lia.
 Qed.
 
-Lemma unique_linear_is_lin : forall o, Forall wf_u o -> unique_linear o = sort_by lin_lt o.
+(* the repaired branch: stable sort by the comparison after the pre-sort = one sort by
+   (start, -length) then (product, core_start, core_end) *)
+Lemma upre_lt_irrefl : forall a, upre_lt a a = false.
+Proof. intros a. apply lex3_irrefl. Qed.
+Lemma upre_lt_trans : forall a b c, upre_lt a b = true -> upre_lt b c = true -> upre_lt a c = true.
+Proof. intros a b c. apply lex3_trans. Qed.
+
+Lemma unique_linear_is_lin : forall o, Forall wf_u o ->
+  unique_linear o = sort_by (lex_lt lin_lt upre_lt) (sort_by upre_lt o).
 Proof.
-  intros o Hwf. unfold unique_linear. apply sort_by_ext_in. rewrite Forall_forall in Hwf.
-  intros a b Ia Ib. apply u_lt_lin; apply Hwf; assumption.
+  intros o Hwf. unfold unique_linear.
+  assert (Hwf1 : forall x, In x (sort_by upre_lt o) -> wf_u x).
+  { rewrite Forall_forall in Hwf. intros x Hx. apply Hwf. apply (Permutation_in _ (sort_by_perm upre_lt o)). exact Hx. }
+  rewrite (sort_by_ext_in u_lt lin_lt).
+  - apply sort_by_stable. apply sort_by_wsorted; [exact upre_lt_irrefl|exact upre_lt_trans].
+  - intros a b Ia Ib. apply u_lt_lin; apply Hwf1; assumption.
 Qed.
 
+Lemma lin_pre_irrefl : forall a, lex_lt lin_lt upre_lt a a = false.
+Proof. intros a. unfold lex_lt, lin_lt. rewrite lex2_irrefl, upre_lt_irrefl. reflexivity. Qed.
+
+Lemma lin_pre_trans : forall a b c,
+  lex_lt lin_lt upre_lt a b = true -> lex_lt lin_lt upre_lt b c = true -> lex_lt lin_lt upre_lt a c = true.
+Proof.
+  intros a b c. unfold lex_lt, lin_lt, upre_lt, lex3, lex2, lin_key, upre_key. cbn [fst snd]. lia.
+Qed.
+
+Lemma lin_pre_total : forall a b,
+  lex_lt lin_lt upre_lt a b = false -> lex_lt lin_lt upre_lt b a = false -> lin_key a = lin_key b /\ upre_key a = upre_key b.
+Proof.
+  intros a b. unfold lex_lt, lin_lt, upre_lt, lex3, lex2, lin_key, upre_key. cbn [fst snd]. intros H1 H2.
+  assert (ust a = ust b /\ - ulen a = - ulen b /\ uprod a = uprod b /\ ucs a = ucs b /\ uce a = uce b)
+    as (-> & -> & -> & -> & ->) by lia.
+  split; reflexivity.
+Qed.
+
+(* same list for every set order unless two protoclusters share (start, length) AND (product, core start, core end) *)
 Lemma unique_linear_perm_proof : forall o o', Forall wf_u o -> Permutation o o' ->
-  (forall a b, In a o -> In b o -> ust a = ust b -> ulen a = ulen b -> a = b) ->
+  (forall a b, In a o -> In b o -> lin_key a = lin_key b -> upre_key a = upre_key b -> a = b) ->
   unique_linear o = unique_linear o'.
 Proof.
   intros o o' Hwf Hp Hg.
   assert (Hwf' : Forall wf_u o').
   { rewrite Forall_forall in *. intros x Hx. apply Hwf. apply (Permutation_in _ (Permutation_sym Hp)). exact Hx. }
-  rewrite (unique_linear_is_lin o Hwf), (unique_linear_is_lin o' Hwf'). unfold lin_lt.
-  apply (sort_by_key_perm lin_key lex2 lex2_irrefl lex2_trans lex2_total); [exact Hp|].
-  intros a b Ia Ib E. unfold lin_key in E. injection E as E1 E2. apply Hg; [exact Ia|exact Ib|exact E1|lia].
+  rewrite (unique_linear_is_lin o Hwf), (unique_linear_is_lin o' Hwf').
+  apply (sort_by_perm_unique (lex_lt lin_lt upre_lt) lin_pre_irrefl lin_pre_trans).
+  - apply Permutation_trans with o; [apply sort_by_perm|].
+    apply Permutation_trans with o'; [exact Hp|apply Permutation_sym; apply sort_by_perm].
+  - intros a b Ia Ib H1 H2.
+    apply (Permutation_in _ (sort_by_perm upre_lt o)) in Ia.
+    apply (Permutation_in _ (sort_by_perm upre_lt o)) in Ib.
+    destruct (lin_pre_total a b H1 H2) as [E1 E2]. apply Hg; assumption.
 Qed.
 
-Definition w_u1 := mkU 1 1000 2000 1000 0.
-Definition w_u2 := mkU 2 1000 2000 1000 1.
-Definition w_u3 := mkU 3 1500 3000 1500 2.
-Lemma unique_linear_refuted_proof : exists o o',
-  Forall wf_u o /\ Permutation o o' /\ NoDup (map uid o) /\ NoDup (map uprod o) /\
-  map uid (unique_linear o) <> map uid (unique_linear o') /\
-  doc_sorted false 0 (unique_linear o) = true /\ doc_sorted false 0 (unique_linear o') = false.
+(* ... and always in the documented order (start, decreasing size, product) *)
+Lemma unique_linear_doc_sorted_proof : forall o, Forall wf_u o -> doc_sorted false 0 (unique_linear o) = true.
 Proof.
-  exists [w_u1; w_u2; w_u3], [w_u2; w_u1; w_u3].
+  intros o Hwf.
+  assert (W : wsorted (lex_lt lin_lt upre_lt) (unique_linear o)).
+  { rewrite (unique_linear_is_lin o Hwf). apply sort_by_wsorted; [exact lin_pre_irrefl|exact lin_pre_trans]. }
+  pose proof (wsorted_adjacent (lex_lt lin_lt upre_lt) _ W) as H.
+  revert H. generalize (unique_linear o). induction l as [|a t IH]; intros H; [reflexivity|].
+  destruct t as [|b t']; [reflexivity|]. cbn [doc_sorted].
+  apply andb_true_iff in H. destruct H as [H1 H2]. apply andb_true_iff. split; [|apply IH; exact H2].
+  apply negb_true_iff in H1. apply negb_true_iff.
+  revert H1. unfold doc_key_lt, lex_lt, lin_lt, upre_lt, lex3, lex2, lin_key, upre_key. cbn [fst snd]. lia.
+Qed.
+
+(* the witness of the repaired finding unique_protoclusters_set_order: identical coordinates, different products *)
+Definition w_u1 := mkU 1 1000 2000 1000 0 1000 2000.
+Definition w_u2 := mkU 2 1000 2000 1000 1 1000 2000.
+Definition w_u3 := mkU 3 1500 3000 1500 2 1500 3000.
+Lemma unique_linear_witness_proof :
+  Forall wf_u [w_u1; w_u2; w_u3] /\ Permutation [w_u1; w_u2; w_u3] [w_u2; w_u1; w_u3] /\
+  map uid (unique_linear [w_u1; w_u2; w_u3]) = [1; 2; 3] /\ map uid (unique_linear [w_u2; w_u1; w_u3]) = [1; 2; 3] /\
+  (* the code before the repair followed the set order and broke the documented order for one of them *)
+  map uid (unique_linear_unrepaired [w_u1; w_u2; w_u3]) <> map uid (unique_linear_unrepaired [w_u2; w_u1; w_u3]) /\
+  doc_sorted false 0 (unique_linear_unrepaired [w_u2; w_u1; w_u3]) = false.
+Proof.
   split; [repeat constructor; cbn; lia|].
   split; [apply perm_swap|].
-  split; [cbn; repeat constructor; cbn; intuition discriminate|].
-  split; [cbn; repeat constructor; cbn; intuition discriminate|].
-  split; [vm_compute; discriminate|]. split; vm_compute; reflexivity.
+  split; [vm_compute; reflexivity|]. split; [vm_compute; reflexivity|].
+  split; [vm_compute; discriminate|vm_compute; reflexivity].
 Qed.
 
 (* ================================================================== stage 4: _ordered *)
@@ -456,7 +507,13 @@ Import C05.Model.
 Definition simple (p : proto) : Prop := exists s e st, ploc p = [mkPart s e st] /\ s <= e.
 Definition pkey (p : proto) : Z * Z := (lstart (ploc p), - llen (ploc p)).
 Definition lexpp (a b : proto) : bool := lex2 (pkey a) (pkey b).
-Definition prod_lt (a b : proto) : bool := pprod a <? pprod b.
+(* the pre-sort key of _ordered: (product, core_start, core_end) *)
+Definition prekey (p : proto) : Z * Z * Z := (pprod p, fstart (pcore p), fend (pcore p)).
+Definition prod_lt (a b : proto) : bool := pre_lt a b.
+Lemma prod_lt_irrefl : forall a, prod_lt a a = false.
+Proof. intros a. unfold prod_lt, pre_lt, pair_lt. cbn [fst snd]. lia. Qed.
+Lemma prod_lt_trans : forall a b c, prod_lt a b = true -> prod_lt b c = true -> prod_lt a c = true.
+Proof. intros a b c. unfold prod_lt, pre_lt, pair_lt. cbn [fst snd]. lia. Qed.
 
 Lemma lt_pp_simple : forall a b, simple a -> simple b -> lt_pp a b = lexpp a b.
 Proof.
@@ -473,39 +530,39 @@ Qed.
 Lemma ordered_list_is_lex : forall g, Forall simple g ->
   ordered_list g = sort_by (lex_lt lexpp prod_lt) (sort_by prod_lt g).
 Proof.
-  intros g Hs. unfold ordered_list. fold prod_lt.
+  intros g Hs. unfold ordered_list. change pre_lt with prod_lt.
   assert (Hs1 : forall x, In x (sort_by prod_lt g) -> simple x).
   { rewrite Forall_forall in Hs. intros x Hx. apply Hs. apply (Permutation_in _ (sort_by_perm prod_lt g)). exact Hx. }
   rewrite (sort_by_ext_in lt_pp lexpp).
-  - apply sort_by_stable. apply sort_by_wsorted.
-    + intros a. unfold prod_lt. lia.
-    + intros a b c. unfold prod_lt. lia.
+  - apply sort_by_stable. apply sort_by_wsorted; [exact prod_lt_irrefl|exact prod_lt_trans].
   - intros a b Ia Ib. apply lt_pp_simple; apply Hs1; assumption.
 Qed.
 
 Lemma lexpp_prod_irrefl : forall a, lex_lt lexpp prod_lt a a = false.
-Proof. intros a. unfold lex_lt, lexpp, prod_lt. rewrite lex2_irrefl. cbn. lia. Qed.
+Proof. intros a. unfold lex_lt, lexpp. rewrite lex2_irrefl, prod_lt_irrefl. reflexivity. Qed.
 
 Lemma lexpp_prod_trans : forall a b c,
   lex_lt lexpp prod_lt a b = true -> lex_lt lexpp prod_lt b c = true -> lex_lt lexpp prod_lt a c = true.
 Proof.
-  intros a b c. unfold lex_lt, lexpp, prod_lt, lex2.
+  intros a b c. unfold lex_lt, lexpp, prod_lt, pre_lt, pair_lt, lex2.
   destruct (pkey a) as [x1 y1]. destruct (pkey b) as [x2 y2]. destruct (pkey c) as [x3 y3].
   cbn [fst snd]. lia.
 Qed.
 
 Lemma lexpp_prod_total : forall a b,
-  lex_lt lexpp prod_lt a b = false -> lex_lt lexpp prod_lt b a = false -> pkey a = pkey b /\ pprod a = pprod b.
+  lex_lt lexpp prod_lt a b = false -> lex_lt lexpp prod_lt b a = false -> pkey a = pkey b /\ prekey a = prekey b.
 Proof.
-  intros a b. unfold lex_lt, lexpp, prod_lt, lex2.
+  intros a b. unfold lex_lt, lexpp, prod_lt, pre_lt, pair_lt, lex2, prekey.
   destruct (pkey a) as [x1 y1]. destruct (pkey b) as [x2 y2]. cbn [fst snd]. intros H1 H2.
-  assert (x1 = x2 /\ y1 = y2 /\ pprod a = pprod b) as [-> [-> E]] by lia. split; [reflexivity|exact E].
+  assert (x1 = x2 /\ y1 = y2 /\ pprod a = pprod b /\ fstart (pcore a) = fstart (pcore b) /\ fend (pcore a) = fend (pcore b))
+    as (-> & -> & -> & -> & ->) by lia.
+  split; reflexivity.
 Qed.
 
 (* the member order of a candidate cluster does not depend on the order in which the set of its
-   protoclusters is enumerated, unless two of them share coordinates AND product *)
+   protoclusters is enumerated, unless two of them share coordinates AND product AND core start/end *)
 Lemma ordered_perm_proof : forall g g', Forall simple g -> Permutation g g' ->
-  (forall a b, In a g -> In b g -> pkey a = pkey b -> pprod a = pprod b -> a = b) ->
+  (forall a b, In a g -> In b g -> pkey a = pkey b -> prekey a = prekey b -> a = b) ->
   ordered_list g = ordered_list g'.
 Proof.
   intros g g' Hs Hp Hg.
@@ -521,7 +578,7 @@ Proof.
     destruct (lexpp_prod_total a b H1 H2) as [E1 E2]. apply Hg; assumption.
 Qed.
 
-(* ... and the result is THE arrangement ordered by (start, -length, product) *)
+(* ... and the result is THE arrangement ordered by (start, -length, product, core start, core end) *)
 Lemma ordered_sorted_proof : forall g, Forall simple g ->
   Permutation (ordered_list g) g /\ wsorted (lex_lt lexpp prod_lt) (ordered_list g).
 Proof.
@@ -546,31 +603,48 @@ Proof.
   split; [vm_compute; discriminate|vm_compute; reflexivity].
 Qed.
 
-(* same product and same coordinates, different cores: the tie _ordered does not break *)
+(* same product and same coordinates, different cores (witness of the repaired finding
+   same_product_equal_coordinates_member_order): the core now breaks the tie; the guard of ordered_perm_proof holds *)
 Definition w_pa' := mkProto 0 [mkPart 0 400 1] [mkPart 110 120 1] 0 [].
 Definition w_pb' := mkProto 1 [mkPart 0 400 1] [mkPart 270 280 1] 0 [].
-Lemma ordered_same_product_refuted_proof : exists g g',
-  Forall simple g /\ Permutation g g' /\ NoDup (map pid g) /\ ordered_list g <> ordered_list g'.
+Lemma ordered_same_product_proof :
+  Forall simple [w_pa'; w_pb'] /\ Permutation [w_pa'; w_pb'] [w_pb'; w_pa'] /\
+  pkey w_pa' = pkey w_pb' /\ pprod w_pa' = pprod w_pb' /\
+  (forall a b, In a [w_pa'; w_pb'] -> In b [w_pa'; w_pb'] -> pkey a = pkey b -> prekey a = prekey b -> a = b) /\
+  map pid (ordered_list [w_pa'; w_pb']) = [0; 1] /\ map pid (ordered_list [w_pb'; w_pa']) = [0; 1] /\
+  (* the pre-sort by product alone (before the repair) followed the enumeration order *)
+  sort_by lt_pp (sort_by (fun a b => pprod a <? pprod b) [w_pa'; w_pb'])
+    <> sort_by lt_pp (sort_by (fun a b => pprod a <? pprod b) [w_pb'; w_pa']).
 Proof.
-  exists [w_pa'; w_pb'], [w_pb'; w_pa'].
   split; [repeat constructor; eexists; eexists; eexists; (split; [reflexivity|lia])|].
   split; [apply perm_swap|].
-  split; [cbn; repeat constructor; cbn; intuition discriminate|].
-  vm_compute. discriminate.
+  split; [reflexivity|]. split; [reflexivity|].
+  split.
+  { intros a b Ia Ib _ E. cbn in Ia, Ib.
+    destruct Ia as [<-|[<-|[]]]; destruct Ib as [<-|[<-|[]]]; try reflexivity; vm_compute in E; discriminate. }
+  split; [vm_compute; reflexivity|]. split; [vm_compute; reflexivity|]. vm_compute. discriminate.
 Qed.
 
-(* SINGLE candidates of protoclusters with identical coordinates: the two numberings of the same
-   three protoclusters (= the two possible iteration orders of set(unassigned)) give different lists *)
+(* SINGLE candidates of protoclusters with identical coordinates (witness of the repaired finding
+   single_candidates_set_order): the two numberings of the same three protoclusters (= the two possible iteration
+   orders of set(unassigned)) now give the same candidate list, singles in _ordered order (by product here) *)
 Definition w_pa2 := mkProto 1 [mkPart 100 200 1] [mkPart 110 120 1] 0 [].
 Definition w_pb2 := mkProto 0 [mkPart 100 200 1] [mkPart 170 180 1] 1 [].
 Definition view (r : res (list cand)) : res (list (Z * list Z)) :=
   match r with Ok l => Ok (map (fun c => (ckind c, map pprod (cmem c))) l) | Err k => Err k end.
-Lemma singles_order_refuted_proof :
+Lemma singles_order_proof :
   view (create_candidates [w_pa; w_pb; w_pc] None)
     = Ok [(K_NEIGHBOURING, [0; 1; 2]); (K_SINGLE, [0]); (K_SINGLE, [1]); (K_SINGLE, [2])] /\
   view (create_candidates [w_pa2; w_pb2; w_pc] None)
-    = Ok [(K_NEIGHBOURING, [0; 1; 2]); (K_SINGLE, [1]); (K_SINGLE, [0]); (K_SINGLE, [2])].
+    = Ok [(K_NEIGHBOURING, [0; 1; 2]); (K_SINGLE, [0]); (K_SINGLE, [1]); (K_SINGLE, [2])].
 Proof. split; vm_compute; reflexivity. Qed.
+
+(* the singles loop visits set(unassigned) in _ordered order: for every enumeration of that set the same list of
+   protoclusters is visited (single-part locations, no two sharing coordinates, product and core) *)
+Lemma singles_visit_perm_proof : forall u u', Forall simple u -> Permutation u u' ->
+  (forall a b, In a u -> In b u -> pkey a = pkey b -> prekey a = prekey b -> a = b) ->
+  forall w ex, singles_go w ex (ordered_list u) = singles_go w ex (ordered_list u').
+Proof. intros u u' Hs Hp Hg w ex. rewrite (ordered_perm_proof u u' Hs Hp Hg). reflexivity. Qed.
 
 (* ================================================================== composition *)
 Lemma pipeline_partial_proof : forall neighbour table N c nb crossing RN
@@ -579,10 +653,10 @@ Lemma pipeline_partial_proof : forall neighbour table N c nb crossing RN
   Permutation hits hits' -> Permutation genes genes' -> Permutation group group' ->
   Permutation protos protos' -> (forall x, In x names <-> In x names') -> Permutation notes notes' ->
   Forall simple group ->
-  (forall a b, In a group -> In b group -> pkey a = pkey b -> pprod a = pprod b -> a = b) ->
+  (forall a b, In a group -> In b group -> pkey a = pkey b -> prekey a = prekey b -> a = b) ->
   (crossing = true -> forall a b, In a protos -> In b protos -> red_key RN a = red_key RN b -> a = b) ->
   (crossing = false -> Forall wf_u protos /\
-                       forall a b, In a protos -> In b protos -> ust a = ust b -> ulen a = ulen b -> a = b) ->
+                       forall a b, In a protos -> In b protos -> lin_key a = lin_key b -> upre_key a = upre_key b -> a = b) ->
   refine_o neighbour table hits = refine_o neighbour table hits' /\
   find_protoclusters_o N c nb genes = find_protoclusters_o N c nb genes' /\
   ordered_list group = ordered_list group' /\
